@@ -33,7 +33,8 @@ Record opts : Set := mkOpts {
   o_tags : bool; o_exact : bool; o_nest : bool; o_omitnil : bool; o_omitempty : bool;
   o_ck : option bytes;
   o_decomp : bool;        (* alt.Decompose: an object left without members counts as empty *)
-  o_tagexact : bool }.    (* known-finding variant: with UseTags an untagged field keeps its exact name whatever KeyExact says *)
+  o_tagexact : bool;
+  o_derefempty : bool }.  (* known-finding variant (Decompose): emptiness is judged after following pointers and interfaces *)    (* known-finding variant: with UseTags an untagged field keeps its exact name whatever KeyExact says *)
 
 Definition lower_byte (b : byte) : byte :=
   let x := b2z b in if (65 <=? x) && (x <=? 90) then z2b (x + 32) else b.
@@ -82,14 +83,28 @@ Definition is_struct_val (v : gv) : bool :=
 Section Enc.
   Variable o : opts.
 
-  (* keep a member? [from_struct]: the value is an object made from a struct *)
-  Definition keep (tg : tagspec) (from_struct : bool) (v : jv) : bool :=
-    negb (o_omitnil o && is_null v) &&
+  (* is the Go value empty in the sense of omitempty / OmitEmpty: false, 0, "", nil, or a
+     slice or map without elements; a non-nil pointer or interface never is, whatever it holds *)
+  Definition gv_empty (v : gv) : bool :=
+    match v with
+    | GBool b => negb b
+    | GInt z => z =? 0
+    | GFloat t => bytes_eqb t [x30]
+    | GStr s => match s with [] => true | _ => false end
+    | GNil => true
+    | GSlice l => match l with [] => true | _ => false end
+    | GMap m => match m with [] => true | _ => false end
+    | GPtr _ | GAny _ _ | GStruct _ => false
+    end.
+
+  (* keep a member? [x] is the Go value, [e] its encoding *)
+  Definition keep (tg : tagspec) (x : gv) (e : jv) : bool :=
+    negb (o_omitnil o && is_null e) &&
     negb ((o_omitempty o || (o_tags o && t_omit tg)) &&
-          (match v with
-           | JObj [] => if from_struct then o_decomp o else true
-           | _ => is_empty v
-           end)).
+          (gv_empty x
+           || (o_decomp o && o_omitempty o && (is_struct_val x || match x with GMap _ => true | _ => false end)
+               && match e with JObj [] => true | _ => false end)
+           || (o_derefempty o && match x with GPtr _ | GAny _ _ => negb (is_struct_val x) && is_empty e | _ => false end))).
 
   Fixpoint enc (t : ty) (v : gv) {struct v} : jv :=
     match v with
@@ -105,7 +120,7 @@ Section Enc.
                          | [] => []
                          | (k, x) :: m' =>
                              let e := enc (match t with TMap t' => t' | _ => TAny end) x in
-                             if keep (mkTag false [] false false false) (is_struct_val x) e then (k, e) :: go m' else go m'
+                             if keep (mkTag false [] false false false) x e then (k, e) :: go m' else go m'
                          end) m)
     | GAny t' x => enc t' x
     | GStruct vals =>
@@ -128,8 +143,9 @@ Section Enc.
                            end
                          else
                            let e := enc ft x in
-                           let e := if o_tags o && t_str tg then as_string e else e in
-                           if keep tg (is_struct_val x) e then (field_key o fname tg, e) :: rest else rest
+                           if keep tg x e
+                           then (field_key o fname tg, if o_tags o && t_str tg then as_string e else e) :: rest
+                           else rest
                      | _, _ => []
                      end) fs vals)
         | _ => JNull
@@ -148,3 +164,78 @@ Fixpoint flip_omit (i : nat) (b : bool) (fs : list field) : list field :=
   end.
 
 Definition model_enc (o : opts) (t : ty) (v : gv) : bytes := show (canon (enc o t v)).
+
+(* ---- what one field contributes to the object of its struct *)
+Definition member_of_field (o : opts) (f : field) (x : gv) : list (bytes * jv) :=
+  match f with
+  | Fld fname exported tg emb ft =>
+      if negb exported then []
+      else if o_tags o && t_dash tg && negb emb then []
+      else if emb && negb (o_nest o) then
+        match enc o ft x with
+        | JObj inner => match o_ck o with Some _ => tl inner | None => inner end
+        | _ => []
+        end
+      else
+        let e := enc o ft x in
+        if keep o tg x e
+        then [(field_key o fname tg, if o_tags o && t_str tg then as_string e else e)]
+        else []
+  end.
+
+Definition contribs (o : opts) (fs : list field) (vals : list gv) : list (list (bytes * jv)) :=
+  map (fun p => member_of_field o (fst p) (snd p)) (combine fs vals).
+
+(* the object of a struct is the create key followed by the contributions of its fields in order *)
+Theorem enc_struct_char o name fs vals :
+  enc o (TStruct name fs) (GStruct vals) =
+  JObj ((match o_ck o with Some k => [(k, JStr name)] | None => [] end) ++ concat (contribs o fs vals)).
+Proof.
+  cbn [enc]. f_equal. f_equal.
+  match goal with |- ?F fs vals = _ =>
+    assert (H : forall vals0 fs0, F fs0 vals0 = concat (contribs o fs0 vals0)); [|apply H] end.
+  induction vals0 as [|x vals0 IH]; intros fs0.
+  - destruct fs0 as [|[? ? ? ? ?] ?]; reflexivity.
+  - destruct fs0 as [|[fname exported tg emb ft] fs0]; [reflexivity|].
+    unfold contribs in *. cbn [combine map concat fst snd member_of_field].
+    rewrite <- (IH fs0).
+    set (e := enc o ft x). set (rest := _ fs0 vals0).
+    destruct exported, emb, (o_tags o) eqn:Et, (t_dash tg) eqn:Ed, (o_nest o) eqn:En;
+      cbn [negb andb app]; try reflexivity;
+      try (destruct e; reflexivity);
+      try (unfold keep; rewrite ?Et; destruct (negb _ && negb _); reflexivity).
+Qed.
+
+Lemma combine_flip i b : forall fs (vals : list gv) j,
+  j <> i -> nth_error (combine (flip_omit i b fs) vals) j = nth_error (combine fs vals) j.
+Proof.
+  induction i as [|i IH]; intros fs vals j Hj.
+  - destruct fs as [|[n e tg emb t] fs]; [reflexivity|]. destruct vals as [|x vals]; [reflexivity|].
+    destruct j as [|j]; [congruence|]. reflexivity.
+  - destruct fs as [|f fs]; [reflexivity|]. destruct vals as [|x vals]; [destruct f; reflexivity|].
+    destruct j as [|j].
+    + destruct f; reflexivity.
+    + destruct f; cbn [flip_omit combine nth_error]; apply IH; congruence.
+Qed.
+
+(* omitempty on field i never changes what another field contributes, under any options *)
+Theorem omitempty_is_local o fs vals i b j :
+  j <> i -> nth_error (contribs o (flip_omit i b fs) vals) j = nth_error (contribs o fs vals) j.
+Proof.
+  intro Hj. unfold contribs. rewrite !nth_error_map. rewrite (combine_flip i b fs vals j Hj). reflexivity.
+Qed.
+
+(* and the contribution of field i itself is either unchanged or dropped/added as a whole *)
+Theorem omitempty_own_field o fname exported tg emb ft x b :
+  let c1 := member_of_field o (Fld fname exported tg emb ft) x in
+  let c2 := member_of_field o (Fld fname exported (set_omit tg b) emb ft) x in
+  c2 = c1 \/ c2 = [] \/ c1 = [].
+Proof.
+  cbn [member_of_field]. unfold set_omit, field_key, keep. cbn [t_has t_name t_dash t_omit t_str].
+  destruct (negb exported); [left; reflexivity|].
+  destruct (o_tags o && t_dash tg && negb emb); [left; reflexivity|].
+  destruct (emb && negb (o_nest o)); [left; reflexivity|].
+  destruct (negb (o_omitnil o && is_null (enc o ft x))); cbn [andb]; [|left; reflexivity].
+  destruct (negb ((o_omitempty o || o_tags o && b) && _)) eqn:E1;
+  destruct (negb ((o_omitempty o || o_tags o && t_omit tg) && _)) eqn:E2; auto.
+Qed.
